@@ -98,10 +98,25 @@ class World(object):
         if decl and attr in decl.fields and isinstance(v, VLock) and v.name is None:
             v.name = decl.fields[attr].split(':', 1)[1]
 
+    GUARDED = {('AdbDevice', '_local_id'): ('local_id', {'C14', 'C06'}),
+               ('IOManager', '_transport'): ('transport', {'C06'}),
+               ('IOManager', '_packet_store'): ('store', {'C06'})}
+
+    def guarded_access(self, ex, obj, attr, node):
+        """Ownership: a guarded field is only touched while its lock is held (C06 item 2, C14)."""
+        g = self.GUARDED.get((obj.cls, attr))
+        if g is None or getattr(ex, 'in_init', False) or ex.contract.key.endswith('.__init__'):
+            return
+        lock, props = g
+        ex.oblige('owned[%s.%s]@%s' % (obj.cls, attr, getattr(node, 'lineno', '?')), ex.G.fields['held_' + lock].term, props, 'ownership',
+                  expr='%s.%s is accessed only while the %s lock is held' % (obj.cls, attr, lock))
+
     def after_yield(self, ex):
-        h = self.hooks.get('after_yield')
-        if h:
-            h(ex)
+        """The consumer runs between two next() calls: the clock may advance (nothing else, see A-YIELD)."""
+        G = ex.G
+        d = z3.Real(ex.fresh_name('consumer_d'))
+        ex.assume(d >= 0)
+        G.fields['now'] = VReal(G.fields['now'].term + d)
 
     def exc_payload(self, ex, contract, cls, bound):
         h = self.hooks.get('exc_payload')
@@ -1263,6 +1278,13 @@ def bi_contextmanager(w, ex, args, kwargs, node):
     return args[0]
 
 
+def bi_gethostname(w, ex, args, kwargs, node):
+    w.use('os')
+    if ex.choose('gethostname-raises'):
+        raise RaiseSig(VExc('OSError'))
+    return VStr(z3.Const(ex.fresh_name('hostname'), Bytes))
+
+
 def bi_noop(w, ex, args, kwargs, node):
     return NONE
 
@@ -1271,7 +1293,7 @@ BUILTINS = {
     'len': bi_len, 'min': _minmax(True), 'max': _minmax(False), 'int': bi_int, 'bool': bi_bool, 'bytes': bi_bytes,
     'bytearray': bi_bytearray, 'isinstance': bi_isinstance, 'sum': bi_sum, 'hasattr': bi_hasattr, 'ord': bi_ord, 'str': bi_str,
     'struct.pack': bi_struct_pack, 'struct.unpack': bi_struct_unpack, 'struct.calcsize': bi_struct_calcsize,
-    'time.time': bi_time_time, 'contextmanager': bi_contextmanager,
+    'time.time': bi_time_time, 'contextmanager': bi_contextmanager, 'socket.gethostname': bi_gethostname,
 }
 
 
@@ -1477,6 +1499,28 @@ def sp_catD(w, ex, node):
     return VBytes(SF.catD(to_int(a), to_int(b), to_int(c)), False)
 
 
+def sp_frame(w, ex, node):
+    """frame(cmd, arg0, arg1, data): the wire image of one ADB message (24-byte header then payload)."""
+    cmd, a0, a1, data = _spec_args(ex, node)
+    c = SF.unle32(cmd.term)
+    n0, v0 = as_opt(a0)
+    n1, v1 = as_opt(a1)
+    h = z3.Concat(SF.le32(c), SF.le32(to_int(v0)), SF.le32(to_int(v1)), SF.le32(z3.Length(data.term)),
+                  SF.le32(SF.bsum(data.term) % TWO32), SF.le32(TWO32 - 1 - c))
+    return VBytes(z3.Concat(h, data.term), False)
+
+
+def sp_rep(w, ex, node):
+    b, n = _spec_args(ex, node)
+    return VBytes(SF.rep(b.term, to_int(n)), False)
+
+
+def sp_nextid(w, ex, node):
+    (x,) = _spec_args(ex, node)
+    t = to_int(x)
+    return VInt(z3.If(t + 1 == TWO32, 1, t + 1))
+
+
 def sp_cmdset(w, ex, node):
     vals = _spec_args(ex, node)
     return w.coerce(ex, VList(vals), 'cmdset')
@@ -1530,7 +1574,7 @@ SPEC_FUNCS = {
     'old': sp_old, 'implies': sp_implies, 'iff': sp_iff, 'ite': sp_ite, 'le32': sp_le32, 'unle32': sp_unle32, 'bsum': sp_bsum,
     'word': sp_word, 'hdr': sp_hdr, 'cat': sp_cat, 'utf8': sp_utf8, 'asstr': sp_asstr, 'dec_bsr': sp_dec_bsr, 'decimal': sp_decimal,
     'isbytes': sp_isbytes, 'isbytearray': sp_isbytearray, 'isstr': sp_isstr, 'store': sp_store, 'isnone': sp_isnone, 'val': sp_val,
-    'real': sp_real, 'zeros': sp_zeros, 'same': sp_same, 'forall_int': sp_forall_int, 'cmdset': sp_cmdset,
+    'real': sp_real, 'zeros': sp_zeros, 'frame': sp_frame, 'rep': sp_rep, 'nextid': sp_nextid, 'same': sp_same, 'forall_int': sp_forall_int, 'cmdset': sp_cmdset,
     'D_cmd': sp_D(SF.D_cmd, lambda t: VBytes(t, False)), 'D_a0': sp_D(SF.D_a0, VInt), 'D_a1': sp_D(SF.D_a1, VInt),
     'D_data': sp_D(SF.D_data, lambda t: VBytes(t, False)), 'catD': sp_catD,
 }
